@@ -367,6 +367,13 @@ def cell(v):
     return v
 
 
+def frame_rows(df):
+    """Rows as lists of Python values taken column by column (DataFrame.values would turn an int64 column
+    next to a float64 column into floats and lose integers beyond 2**53)."""
+    cols = [df.iloc[:, k].tolist() for k in range(df.shape[1])]
+    return [list(r) for r in zip(*cols)] if cols else [[] for _ in range(len(df))]
+
+
 def rows_of(df, cols=None):
     cols = list(df.columns) if cols is None else cols
     return [tuple(cell(v) for v in row) for row in df[cols].values.tolist()]
